@@ -966,3 +966,9 @@ impl Reader {
         Ok(Settings { raw: raw })
     }
 }
+
+#[cfg(kani)]
+mod verif_kani {
+    use super::*;
+    include!(concat!(env!("LIBTW2_VERIF_HARNESS"), "/map_reader.rs"));
+}
